@@ -89,6 +89,12 @@ theorem C03_consumed_oneshot_is_expired (s : St) (m : ModId) (md : Mod) (i : Src
     · rw [List.getElem?_eq_none h] at hm; cases hm
   simp only [St.updMod, hm, List.getElem?_set, hlt, if_true]
 
+/-- task sources (and thresholds) are one-shot whatever flags they were registered with: the registry forces the flag, so
+`C03_oneshot_removed_first` applies to every task event — a finished task is handed over once and its source is gone -/
+theorem C03_task_sources_are_oneshot (x : Src) (h : x.kind = .task ∨ x.kind = .thresh) : (forceOneshot x).oneshot = true := by
+  unfold forceOneshot
+  rcases h with h | h <;> simp [h]
+
 /-- tie A: the guard prefixes of the entry points this property is about, re-extracted from the source on every run,
 are the ones the model transcribes (`Lm.Inst.CoreTie`) -/
 theorem C03_guards_in_source :
